@@ -569,6 +569,17 @@ pub async fn run(cx: &mut Ctx) {
             sched_trace.push(format!("{site}"));
             cx.log.push(format!("  sched: release {site}[{nth}]"));
             cx.ctl.release(*ticket);
+            // Sometimes a second actor is released in the same step: the two then run side by
+            // side until both are parked again, interleaving at every await in between (I/O
+            // awaits included) and not only at gates.
+            let pair_pct = cx.case.param("pair_pct", 0) as usize;
+            if pair_pct > 0 && parked.len() >= 2 && cx.decide(100) < pair_pct {
+                let rest: Vec<_> = parked.iter().enumerate().filter(|(i, _)| *i != c).collect();
+                let (_, (ticket2, site2, _)) = rest[cx.decide(rest.len())];
+                sched_trace.push(format!("+{site2}"));
+                cx.log.push(format!("  sched: and release {site2} alongside"));
+                cx.ctl.release(*ticket2);
+            }
         } else {
             advances += 1;
             let ms = [1000u64, 1000, 2500, 60_000][cx.decide(4)];
